@@ -1569,6 +1569,18 @@ mod tv {
                         let r = oom(core.get(tok[2])?.ite(core.get(tok[3])?, core.get(tok[4])?))?;
                         Ok(core.put(tok[1], r))
                     }
+                    "T3COF" => {
+                        // C11 (table-level model): the three cofactors (true, unknown, false) of tok[4]
+                        match core.get(tok[4])?.cofactors() {
+                            Some((t, u, e)) => {
+                                core.put(tok[1], t);
+                                core.put(tok[2], u);
+                                core.put(tok[3], e);
+                                Ok("ok".into())
+                            }
+                            None => Ok("none".into()),
+                        }
+                    }
                     "T3EVAL" => {
                         let n = core.nvars();
                         if n > 6 {
